@@ -1035,7 +1035,14 @@ pub(crate) fn eval_up_to(
     for syn_id in syn_ids.iter().rev() {
         // TODO: this is iterating items twice, which will be slower.
         if let Some(expr) = find_expr_of_id(items, syn_id.id()) {
-            expr_id = Some(expr.id);
+            // Parentheses are evaluated by evaluating the expression
+            // inside them, so that's the expression to stop at.
+            let mut stop_expr = &expr;
+            while let Expression_::Parentheses(paren) = &stop_expr.expr_ {
+                stop_expr = &paren.expr;
+            }
+
+            expr_id = Some(stop_expr.id);
             position = Some(expr.position.clone());
             break;
         }
